@@ -26,6 +26,7 @@ mod irc;
 mod model;
 mod oracle;
 mod stepchecks;
+mod stuck;
 mod net;
 mod rt;
 mod world;
@@ -40,11 +41,18 @@ fn registry() -> Vec<Arc<dyn Check>> {
         id: "C02",
         step: Arc::new(stepchecks::StepCheck { id: "C02", quick: 15_000, thorough: 160_000 }),
         burst: Arc::new(c18::C18 { id: "C02" }),
+        every: 4,
     }));
     for id in ["C01", "C03", "C04", "C07", "C08", "C09", "C10", "C11", "C14", "C15", "C16", "C19"] {
         // checks whose workload verifies many argon2 hashes get a smaller thorough tier (about 10 minutes on 16 cores each)
         let thorough = if matches!(id, "C03" | "C11" | "C19" | "C14") { 500_000 } else { 900_000 };
-        v.push(Arc::new(stepchecks::StepCheck { id, quick: 30_000, thorough }));
+        if matches!(id, "C01" | "C04" | "C19") {
+            // "for every history" includes histories whose commands overlap: every 12th run is a burst run over the
+            // templates built around this property's objects (memberships, message streams, counters)
+            v.push(Arc::new(Composite { id, step: Arc::new(stepchecks::StepCheck { id, quick: 27_500, thorough: thorough / 12 * 11 }), burst: Arc::new(c18::C18 { id }), every: 12 }));
+        } else {
+            v.push(Arc::new(stepchecks::StepCheck { id, quick: 30_000, thorough }));
+        }
     }
     v.push(Arc::new(c06::C06));
     v.push(Arc::new(c17::C17));
@@ -60,6 +68,8 @@ struct Composite {
     id: &'static str,
     step: Arc<dyn Check>,
     burst: Arc<dyn Check>,
+    /// every `every`-th run is a burst run
+    every: u64,
 }
 
 impl Check for Composite {
@@ -67,10 +77,10 @@ impl Check for Composite {
         self.id
     }
     fn runs(&self, tier: Tier) -> u64 {
-        self.step.runs(tier) / 3 * 4
+        self.step.runs(tier) / (self.every - 1) * self.every
     }
     fn rule(&self) -> String {
-        format!("runs with index % 4 != 3: {} || runs with index % 4 == 3: {}", self.step.rule(), self.burst.rule())
+        format!("runs with index % {e} != {l}: {} || runs with index % {e} == {l}: {}", self.step.rule(), self.burst.rule(), e = self.every, l = self.every - 1)
     }
     fn assumptions(&self) -> Vec<String> {
         let mut a = self.step.assumptions();
@@ -78,16 +88,27 @@ impl Check for Composite {
         a
     }
     fn probes(&self) -> Vec<&'static str> {
-        vec!["gate.parked.LockWrite", "linearised", "template.nick_race_unreg"]
+        if self.id == "C02" {
+            vec!["gate.parked.LockWrite", "linearised", "template.nick_race_unreg"]
+        } else {
+            vec!["gate.parked.LockWrite", "linearised"]
+        }
     }
     fn gen(&self, run_seed: u64, idx: u64, tier: Tier) -> Trace {
-        if idx % 4 == 3 {
-            self.burst.gen(run_seed, idx / 4, tier)
+        if self.id == "C02" && idx % 16 == 6 {
+            // directed fault scenario: a killed session whose task is stuck behind a peer that does not read
+            return stuck::gen(self.id, run_seed);
+        }
+        if idx % self.every == self.every - 1 {
+            self.burst.gen(run_seed, idx / self.every, tier)
         } else {
             self.step.gen(run_seed, idx, tier)
         }
     }
     fn exec(&self, trace: &Trace) -> framework::Outcome {
+        if trace.params.get("scenario").map_or(false, |s| s == "stuck_kill") {
+            return stuck::exec(trace, self.id);
+        }
         if trace.params.contains_key("template") {
             self.burst.exec(trace)
         } else {
